@@ -46,6 +46,8 @@ var payloads = []payload{
 	{"nestedempty", `<a><b></b><c>t</c><d x="1"></d></a>`},
 	{"entities", `<a>x &lt; y &amp; z</a>`},
 	{"siblings", `<a><b/><b></b><e>1</e></a>`},
+	{"percent", `<d>95% load %20b %% 100%s %d%v %!</d>`},                       // verbs, were the payload ever used as a format string
+	{"wsempties", "<w><a>\n</a><b></b><c>t</c><d x=\"1\">\n  </d><e></e></w>"}, // several empty elements, some with inner whitespace: offsets of later rewrites depend on earlier ones
 }
 
 var xpaths = []string{`/interfaces/interface[name='eth0']`, `//x[@y<"3" and z>'1']/é`}
@@ -344,7 +346,7 @@ func TestCheck(t *testing.T) {
 	sched.Main(t, sched.Check{
 		ID:    "C03",
 		Level: "exploration",
-		Rule: "exhaustive product: operation (get, get-config, edit-config, copy/delete-config, lock/unlock, validate, 5 commit variants, discard, raw rpc) x argument alphabet (3 datastores, 11 XML payloads incl. multi-byte, 5000-byte, attributes/namespaces, empty-element spellings, entities; 2 xpath strings; 5 defaults modes) x {1.0,1.1} x {self-closing on,off} x {header on,off} x position 1..3 in a session; each cell is one session on the real driver over the server model; " +
+		Rule: "exhaustive product: operation (get, get-config, edit-config, copy/delete-config, lock/unlock, validate, 5 commit variants, discard, raw rpc) x argument alphabet (3 datastores, 13 XML payloads incl. multi-byte, 5000-byte, attributes/namespaces, empty-element spellings (several per document, with inner whitespace), entities, percent signs; 2 xpath strings; 5 defaults modes) x {1.0,1.1} x {self-closing on,off} x {header on,off} x position 1..3 in a session; each cell is one session on the real driver over the server model; " +
 			"oracle: strict RFC 6242 / end-of-message stream decoder over the bytes the server received, byte equality with Response.Input/FramedInput, encoding/xml tree equality with an independently written RFC 6241 template, option-independence comparisons across cells; distinct = distinct (operation case, cell, position)",
 		Assumptions: []string{"whitespace-only text equals no text (what forcing self-closing tags may change)", "0 schedule deviations: the property has no schedule dimension"},
 		Scenarios:   scenarios,
